@@ -95,9 +95,34 @@ class Model:
                 tree = ast.parse(src)
             except SyntaxError as e:
                 raise AnalysisError(f'cannot parse mpyc/{m}.py: {e}')
+            tree = self._canonicalise(m, tree)
             self.trees[m] = tree
             self._index(m, tree.body, prefix='', cls=None, parent=None)
         self.digest = hashlib.sha256('\0'.join(f'{m}\0{s}' for m, s in sorted(self.sources.items())).encode()).hexdigest()
+
+    # functions whose bodies are canonicalised (aliases inlined, comparisons oriented, if-polarity and early
+    # returns normalised) before any rule looks at them: the small protocol functions whose *shape* the
+    # FR/PC/GA/LV rules inspect.  None = every function of the module.
+    CANON = {'asyncoro': None,
+             'runtime': {'_send_message', '_receive_message', '_prss_uci', 'set_protocol', 'unset_protocol'}}
+
+    def _canonicalise(self, m, tree):
+        sel = self.CANON.get(m, False)
+        if sel is False:
+            return tree
+        from .canon import canon_function
+
+        class T(ast.NodeTransformer):
+            def visit_FunctionDef(self, n):
+                self.generic_visit(n)
+                if sel is None or n.name in sel:
+                    return canon_function(n)
+                return n
+
+            visit_AsyncFunctionDef = visit_FunctionDef
+        tree = T().visit(tree)
+        ast.fix_missing_locations(tree)
+        return tree
 
     def _index(self, m, body, prefix, cls, parent):
         for n in body:
